@@ -279,6 +279,9 @@ def k_ser(c):
     if seq:
         first = guarded(run)
         for o, v in zip(outs, c['values']):
+            if v[0] < 0 and not v[1] and c.get('bare_int'):
+                o.amount = v[0]                 # a bare (negative) int where a Value belongs
+                continue
             o.amount.coin = v[0]
             for p, names in v[1]:
                 for n, q in names:
